@@ -75,6 +75,11 @@ struct string_equal {
 // the point where the operation takes effect. point: 1 fetch (miss), 2 fetch (hit, inside the
 // lru_mutex block), 3 rise, 4 clear, 5 stats, 6 remove, 7 store.
 extern "C" { void (*cppcms_verif_cache_hook)(int point) = 0; }
+// Second verification hook (same conditions): called by check_limits() with 1 at the top of every
+// iteration of its loop (the guard, incl. not_enough_memory(), has just been evaluated to true) and
+// with 0 when the loop is left (the guard has just been evaluated to false, or nothing could be
+// evicted). Lets a harness look at the allocator at exactly the points where the guard looks at it.
+extern "C" { void (*cppcms_verif_limits_hook)(int in_loop) = 0; }
 #endif
 
 #ifndef CPPCMS_NO_PREFOK_CACHE
@@ -355,6 +360,9 @@ public:
 
 		while(size > 0 && (not_enough_memory() || (size>=limit && limit>0)))
 		{
+#ifdef CPPCMS_VERIF_HOOKS
+			if(cppcms_verif_limits_hook) cppcms_verif_limits_hook(1);
+#endif
 			if(!timeout.empty() && timeout.begin()->first<now) {
 				main=timeout.begin()->second;
 			}
@@ -365,6 +373,9 @@ public:
 				break;
 			delete_node(main);
 		}
+#ifdef CPPCMS_VERIF_HOOKS
+		if(cppcms_verif_limits_hook) cppcms_verif_limits_hook(0);
+#endif
 	}
 	virtual void remove(std::string const &key)
 	{
